@@ -38,6 +38,12 @@ def gen_cases(tier, seed):
                                       'levels': lvl == 'WARNING', 'threads': 1})
     for n in (40, 400, 4000):
         cases.append({'carrier': 'process', 'n': n, 'size': 200, 'ending': 'return', 'pause': 0, 'parent_level': 'DEBUG', 'levels': False, 'threads': 4})
+    # the parent's level settings may sit on a named logger or on the handler, not only on the root logger
+    for n in (8, 400):
+        for ending in ('return', 'raise'):
+            cases.append({'carrier': 'process', 'n': n, 'size': 50, 'ending': ending, 'pause': 0, 'parent_level': 'DEBUG', 'levels': True, 'threads': 1, 'named_logger_level': 'ERROR'})
+            cases.append({'carrier': 'process', 'n': n, 'size': 50, 'ending': ending, 'pause': 0, 'parent_level': 'DEBUG', 'levels': True, 'threads': 1, 'handler_level': 'WARNING'})
+            cases.append({'carrier': 'process', 'n': n, 'size': 50, 'ending': ending, 'pause': 0, 'parent_level': 'ERROR', 'levels': True, 'threads': 1, 'named_logger_level': 'INFO'})
     extra = []
     for n in (5, 300, 3000):
         for w in (1, 2):
@@ -45,9 +51,11 @@ def gen_cases(tier, seed):
         extra.append({'carrier': 'pool', 'n': n, 'size': 100, 'parent_level': 'DEBUG'})
     if tier == 'quick':
         rng.shuffle(cases)
+        lv = [c for c in cases if c.get('named_logger_level') or c.get('handler_level')]
+        cases = [c for c in cases if c not in lv]
         big = [c for c in cases if c['n'] >= 2000][:14]
         small = [c for c in cases if c['n'] < 2000][:46]
-        cases = big + small + extra[:6]
+        cases = big + small + extra[:6] + lv
     else:
         cases = cases + extra
     rng.shuffle(cases)
@@ -66,10 +74,13 @@ class Recorder(logging.Handler):
             self.records.append((record.name, record.levelno, msg[:40]))
 
 
-def expected_records(spec, parent_level):
+def expected_records(spec, parent_level, named=None, handler=None):
     out = []
     levels = [logging.DEBUG, logging.INFO, logging.WARNING, logging.ERROR]
-    plv = getattr(logging, parent_level)
+    # effective level of logger 'vf.child': the nearest explicitly set level on the way to the root; then the handler's own level
+    plv = getattr(logging, named) if named else getattr(logging, parent_level)
+    if handler:
+        plv = max(plv, getattr(logging, handler))
     nthreads = spec.get('threads', 1)
     if nthreads > 1:
         per = spec['n'] // nthreads
@@ -97,7 +108,9 @@ def run_case(case):
         root.removeHandler(h)
     root.addHandler(rec)
     root.setLevel(getattr(logging, case['parent_level']))
-    logging.getLogger('vf').setLevel(logging.NOTSET)
+    logging.getLogger('vf').setLevel(getattr(logging, case['named_logger_level']) if case.get('named_logger_level') else logging.NOTSET)
+    if case.get('handler_level'):
+        rec.setLevel(getattr(logging, case['handler_level']))
     t0 = time.monotonic()
     try:
         if case['carrier'] == 'process':
@@ -125,7 +138,7 @@ def run_case(case):
             want_kind = {'return': 'ok', 'raise': 'exc', 'exit': 'exc'}[case['ending']]
             if outcome[0] != want_kind:
                 viol.append({'mech': 'logging/wrong-outcome', 'msg': f'child ending {case["ending"]} reported as {outcome!r}'})
-            exp, unordered = expected_records(spec, case['parent_level'])
+            exp, unordered = expected_records(spec, case['parent_level'], case.get('named_logger_level'), case.get('handler_level'))
             lt = getattr(p, '_logger_thread_', None)
             deadline = time.monotonic() + 10
             while time.monotonic() < deadline:
@@ -188,6 +201,7 @@ def run_case(case):
             obs['end_of_life_records'] = 1
             judge_sequence(viol, [(0, i) for i in range(case['n'])], got, False, f'pool task logging {case["n"]} records then shutdown')
     finally:
+        logging.getLogger('vf').setLevel(logging.NOTSET)
         root.removeHandler(rec)
         for h in old_handlers:
             root.addHandler(h)
